@@ -255,7 +255,17 @@ def _n7(tree: ast.AST):
                 node.body, node.orelse = node.orelse, node.body
 
 
+def _note_frozen(tree: ast.AST):
+    for c in ast.walk(tree):
+        if isinstance(c, ast.ClassDef) and any('dataclass' in ast.unparse(d) and 'frozen=True' in ast.unparse(d) for d in c.decorator_list):
+            FROZEN_CLASSES.add(c.name)
+            for c2 in ast.walk(tree):
+                if isinstance(c2, ast.ClassDef) and any(isinstance(b, ast.Name) and b.id == c.name for b in c2.bases):
+                    FROZEN_CLASSES.add(c2.name)
+
+
 def normalise(tree: ast.Module) -> ast.Module:
+    _note_frozen(tree)
     _n1(tree)
     _N13().visit(tree)
     _N2().visit(tree)
@@ -336,6 +346,7 @@ def _kills(st: ast.AST, roots: Set[str], reads_heap: bool, var: str, paths: Opti
 
     def related(p: str) -> bool:
         return any(q == p or q.startswith(p + '.') or q.startswith(p + '[') or p.startswith(q + '.') or p.startswith(q + '[') for q in paths)
+    # in-place updates of a container that the expression inspects as a whole: S.append(x) changes len(S)
     for x in ast.walk(st):
         if isinstance(x, ast.Name) and isinstance(x.ctx, (ast.Store, ast.Del)) and x.id in roots:
             return True
@@ -361,7 +372,16 @@ def _kills(st: ast.AST, roots: Set[str], reads_heap: bool, var: str, paths: Opti
                         continue
                     if not paths or related(recv):
                         return True
+            # the object itself handed to a call: the callee may change it (a list passed down and appended to)
+            for a in list(x.args) + [k.value for k in x.keywords]:
+                if isinstance(a, ast.Name) and a.id in roots and a.id != self_name:
+                    if isinstance(f, ast.Name) and f.id in PURE_FUNCS:
+                        continue
+                    return True
     return False
+
+
+FROZEN_CLASSES: Set[str] = set()
 
 
 def _n5_function(fn: ast.AST):
@@ -437,6 +457,19 @@ def _n5_function(fn: ast.AST):
                         continue        # a slice is a fresh container too
                     if sum(1 for _ in ast.walk(s.value)) > 40:
                         continue        # keep the canonical form readable (and the rewriting cheap)
+                    if any(isinstance(x, ast.Subscript) and not isinstance(x.slice, ast.Slice) for x in ast.walk(s.value)):
+                        # an item read can have an effect (defaultdict creates the entry): it must still happen where it happened --
+                        # only propagated when the very next statement evaluates it unconditionally (in its header)
+                        nxt_ = b[i + 1] if i + 1 < len(b) else None
+                        hdr_ = []
+                        if isinstance(nxt_, (ast.Assign, ast.AugAssign, ast.Expr, ast.Return)) and getattr(nxt_, 'value', None) is not None:
+                            hdr_ = [nxt_.value] + (list(nxt_.targets) if isinstance(nxt_, ast.Assign) else [])
+                        elif isinstance(nxt_, (ast.If, ast.While)):
+                            hdr_ = [nxt_.test]
+                        elif isinstance(nxt_, ast.For):
+                            hdr_ = [nxt_.iter]
+                        if not any(isinstance(y, ast.Name) and y.id == v and isinstance(y.ctx, ast.Load) for h_ in hdr_ for y in ast.walk(h_)):
+                            continue
                     # every load of v lies in a later statement of this block
                     later = b[i + 1:]
                     inside = {id(x) for st in later for x in ast.walk(st)}
@@ -474,6 +507,11 @@ def _n5_function(fn: ast.AST):
                                 inner_ids.add(id(y))
                                 y = y.value
                     self_nm = fn.args.args[0].arg if fn.args.args else None
+                    # parameters annotated with a frozen dataclass of the package are values: nothing can change what they hold
+                    for a_ in fn.args.posonlyargs + fn.args.args + fn.args.kwonlyargs:
+                        if a_.arg in heap_roots and a_.annotation is not None and \
+                                ast.unparse(a_.annotation).strip('\'"').split('[')[0] in FROZEN_CLASSES:
+                            heap_roots = heap_roots - {a_.arg}
                     # what can change the value only matters up to the last use -- or anywhere inside a loop that also holds a use
                     last_line = max(getattr(x, 'lineno', 0) for x in loads)
 
@@ -497,6 +535,13 @@ def _n5_function(fn: ast.AST):
                             if _kills(own, roots - heap_roots, False, v) or _kills(own, heap_roots, True, v, read_paths, self_nm):
                                 return True
                         return False
+                    for x in ast.walk(s.value):
+                        # an object whose *state* a call inside the expression inspects (len(S), sorted(d), set(kw)) is read through the heap
+                        if isinstance(x, ast.Call):
+                            for a_ in list(x.args) + [k_.value for k_ in x.keywords]:
+                                if isinstance(a_, ast.Name):
+                                    heap_roots.add(a_.id)
+                                    read_paths.add(a_.id)
                     if any(_relevant_kill(st) for st in later[:last + 1]):
                         continue
                     ids = {id(x) for x in loads}
